@@ -91,7 +91,7 @@ def run(ctx):
                 prog.append({"op": "init", "a": {"kind": kind, "data": s0["data"], "pos": s0["pos"]}})
                 prog += [{"op": a["op"], "a": a["a"]} for a in h[1:]]
                 nh += 1
-        events = run_harness("streams", prog, os.path.join(WORK, "gen_streams.ev.ndjson"))
+        events = run_harness("streams", prog, os.path.join(WORK, "gen_streams.ev.ndjson"), ctx=ctx)
         judge_chunks(ctx, "gent_streams", events)
         ctx.cov["gen_tests_replayed"] += covered
         ctx.cov["traces_validated_against_impl"] += nh
@@ -107,7 +107,7 @@ def run(ctx):
     # sockets that deliver their data in several chunks (short reads inside the exact loop)
     for _ in range(60 if ctx.tier == "quick" else 600):
         prog += chunk_history(ctx.rnd)
-    events = run_harness("streams", prog, os.path.join(WORK, "tr_streams.ev.ndjson"))
+    events = run_harness("streams", prog, os.path.join(WORK, "tr_streams.ev.ndjson"), ctx=ctx)
     judge_chunks(ctx, "tr_streams", events)
     ctx.cov["traces_validated_against_impl"] += nhist
     ctx.sample({"kind": "recorded adapter history (volatile call and std twin) validated by Trace_Streams", "events": events[:4]})
